@@ -95,6 +95,21 @@ theorem gen_dispatching :
        "if c.HasEndpoint(bndl.PrimaryBlock.Destination)", "  c.localDelivery(bp)", "else", "  c.forward(bp)"] := by
   decide
 
+set_option maxRecDepth 16384 in
+/-- `calcExpirationDate` (`Dtn7.Node.calcExpires` with `expiryNow`): creation time zero ⇒ now + (lifetime −
+age), else creation time + lifetime. -/
+theorem gen_expiry :
+    Dtn7.Gen.C05.calcExpirationSkeleton =
+      ["lifetime := time.Duration(b.PrimaryBlock.Lifetime) * time.Millisecond",
+       "if b.PrimaryBlock.CreationTimestamp.IsZeroTime()",
+       "  var age time.Duration",
+       "  if bab, err := b.ExtensionBlock(bpv7.ExtBlockTypeBundleAgeBlock); err == nil",
+       "    age = time.Duration(bab.Value.(*bpv7.BundleAgeBlock).Age()) * time.Millisecond",
+       "  if age > lifetime",
+       "    age = lifetime",
+       "  return time.Now().Add(lifetime - age)",
+       "return b.PrimaryBlock.CreationTimestamp.DtnTime().Time().Add(lifetime)"] := by decide
+
 /-- `DeleteExpired` compares `Expires` with the current time and deletes what it finds. -/
 theorem gen_delete_expired :
     isSubseq ["s.bh.Find", "badgerhold.Where().Lt", "time.Now", "s.Delete"] Dtn7.Gen.C05.deleteExpiredCalls = true := by
